@@ -12,7 +12,7 @@ LEVEL = ("Static structural conditions of schedule-independent determinism: no a
          "constant stream outside that image, every RNG-taking call in the worker gets that per-chain RNG, and every Settings::new_chain seeds "
          "the chain RNG from its rng argument only (R2); the worker closure captures only per-chain owned values, shared references to the "
          "Sync model/settings and the two per-chain Arc<Mutex<..>> created for this chain (R3); chains read no storage or progress state back "
-         "(R5). Order-sensitive iteration over default-hasher maps on record/finalize paths (R4) is decided by C14-R3. Bit-identity of "
+         "(R5); every computed draw is recorded exactly once whatever the timing of pause/resume commands (R6, shared with C12-R2). Order-sensitive iteration over default-hasher maps on record/finalize paths (R4) is decided by C14-R3. Bit-identity of "
          "floating-point results as an observed fact is not decided.")
 EXPLANATION = ("Who-may-call over every MIR call site of the library crates against a table of ambient nondeterminism sources, static-item inventory, "
                "value-provenance (def-use trees) of RNG constructors and stream selectors, closure-capture inventory by type class; each zero-expected "
@@ -503,6 +503,11 @@ def run(F, R, config=None):
         r2(F, R)
         r3(F, R)
         r5(F, R)
+        # what is recorded must not depend on when control commands arrive: every computed draw is recorded exactly once (shared with C12-R2)
+        from . import c12
+        w = worker_body(F)
+        if w is not None:
+            c12.r2(F, R, w, c12.mailbox(F, w), rid="C10-R6")
     else:
         R.not_evaluated.append("C10-R2/R3/R5: feature `parallel` is off in this configuration (no parallel sampler compiled)")
     R.assume("rand: seed_from_u64 / set_stream are pure; ChaCha8 streams with distinct ids are independent")
@@ -518,6 +523,6 @@ def features(F):
     return []
 
 
-FEATURE_RULES = {"C10-R2": "parallel", "C10-R3": "parallel", "C10-R5": "parallel"}
+FEATURE_RULES = {"C10-R2": "parallel", "C10-R3": "parallel", "C10-R5": "parallel", "C10-R6": "parallel"}
 CONFIGS = ["all", "default", "nodefault"]
 SELFTEST = True
